@@ -330,7 +330,7 @@ struct Explorer {
   bool verbose = false;
   vector<J> samples;
 
-  Explorer(const Scenario& sc) : sc(sc) {}
+  Explorer(const Scenario& sc) : sc(sc) { nx::g_alloc_descending = sc.alloc_descending; }
 
   bool Want(const char* p) const { return props.empty() || props.count(p); }
 
@@ -3659,6 +3659,7 @@ int main(int argc, char** argv) {
     out.set("crash_worlds", total.crash_worlds);
     out.set("io_fault_runs", total.io_fault_runs);
     out.set("max_running", total.max_running);
+    out.set("desc_allocs", (long long)nx::g_desc_allocs);
     out.set("js_runs", total.js_runs);
     out.set("js_moves", total.js_moves);
     out.set("js_spins", total.js_spins);
